@@ -48,7 +48,7 @@ Qed.
 (* ---- facts about the generated table that discharge the side conditions of [ok] ---- *)
 Definition instance_classes : list N :=
   [c_int; c_bool; c_float; c_complex; c_str; c_bytes; c_tuple; c_list; c_set; c_frozenset; c_dict; c_type;
-   c_NoneType; 40; 41; 42; 43; 44; 45; 46]%N.
+   c_NoneType; 40; 41; 42; 43; 44; 45; 46; 50; 51; 52; 53; 54; 55; 56; 57; 58; 59]%N.
 
 (* for every class that has instances in the universe and every class of the
    universe, the implementation's nominal verdict is subclassing + promotion *)
